@@ -418,6 +418,19 @@ pub struct Rendered {
 
 const UP: &[u8] = b"ABCDEFGHIJKLMNOPQRSTUVWXYZ";
 
+/// Default field and variant names are deliberately NOT in alphabetical order and contain prefixes of one
+/// another, so that code which sorts or matches names as text cannot hide behind f0 < f1 < f2.
+const FIELD_NAMES: [&str; 14] = ["z", "a", "m", "ab", "y", "b", "x", "c", "w", "d", "v", "e", "u", "f"];
+const VARIANT_NAMES: [&str; 10] = ["Vz", "Va", "Vm", "Vab", "Vy", "Vb", "Vx", "Vc", "Vw", "Vd"];
+
+pub fn default_field_name(i: usize) -> String {
+    FIELD_NAMES.get(i).map(|s| s.to_string()).unwrap_or_else(|| format!("q{i}"))
+}
+
+pub fn default_variant_name(k: usize) -> String {
+    VARIANT_NAMES.get(k).map(|s| s.to_string()).unwrap_or_else(|| format!("V{k}"))
+}
+
 pub fn nonterminal_name(i: usize, naming: u8) -> String {
     let j = if naming == 1 { 25 - i } else { i };
     assert!(j < 26);
@@ -462,7 +475,7 @@ pub fn render(g: &Grammar, pr: &Presentation) -> Rendered {
                         s += &format!("{indent}    _: {}\n", sym_src(x));
                         names.push(None);
                     } else {
-                        let fname = ov(format!("f{pi}_{i}"), format!("f{i}"));
+                        let fname = ov(format!("f{pi}_{i}"), default_field_name(i));
                         s += &format!("{indent}    {fname}: {}\n", sym_src(x));
                         names.push(Some(fname));
                     }
@@ -496,7 +509,7 @@ pub fn render(g: &Grammar, pr: &Presentation) -> Rendered {
             let mut s = format!("{attr}enum {name} {{\n");
             for (k, &pi) in ps.iter().enumerate() {
                 let fs = fieldset_src(pi, "    ");
-                let vname = ov(format!("v{pi}"), format!("V{k}"));
+                let vname = ov(format!("v{pi}"), default_variant_name(k));
                 s += &format!("    {vname}{fs}\n");
                 constructors[pi] = (name.clone(), Some(vname));
             }
